@@ -268,6 +268,11 @@ theorem ws_close_or_text_is_failure (s : State) (hr : s.reader = .idle) :
   rw [h1, h2]
   refine ⟨rfl, rfl, ?_, ?_⟩ <;> simp [ctlStep, step, hr, Failed]
 
+/-- Dropping a handle of the WebSocket client closes the connection only when it was the last one
+(`Drop for WebSocketClient`, re-extracted): the other handles keep being served. In the model handles are
+not objects at all — this is the premise that makes that sound. -/
+theorem ws_drop_closes_only_last_handle : Gen.Mux.wsDropClosesOnlyLast = true := by decide
+
 theorem ws_ping_pong_inert (s : State) :
     ctlStep Gen.Mux.wsCfg s Gen.Mux.wsPing = s ∧ ctlStep Gen.Mux.wsCfg s Gen.Mux.wsPong = s := by
   have h1 : Gen.Mux.wsPing = .ignore := by decide
